@@ -177,3 +177,12 @@ c40_threshold(G, Max, T) :-
     findall(R, call_with_inference_limit(G, T, R), Rs),
     \+ member(inference_limit_exceeded, Rs),
     !.
+
+% ---------------------------------------------------------------------------
+% C09 helpers
+% ---------------------------------------------------------------------------
+:- dynamic(p/1).
+:- dynamic(q/2).
+:- dynamic(c09_l/1).
+c09_log(T) :- assertz(c09_l(T)).
+c09_call(G) :- catch(G, error(existence_error(procedure, _), _), fail).
